@@ -693,10 +693,10 @@ func (dr *dirRepo) gc() error {
 	// prune an empty repo dir and mark the repo as empty if successful
 	if *dr.conf.Storage.GC.EmptyRepo && len(dr.index.Manifests) == 0 && dr.uploads.IsEmpty() {
 		errDir := func() error {
-			errs := []error{}
 			for _, dir := range []string{
 				filepath.Join(dr.path, uploadDir),
 				filepath.Join(dr.path, blobsDir, "sha256"),
+				filepath.Join(dr.path, blobsDir, "sha384"),
 				filepath.Join(dr.path, blobsDir, "sha512"),
 				filepath.Join(dr.path, blobsDir),
 				filepath.Join(dr.path, indexFile),
@@ -705,10 +705,11 @@ func (dr *dirRepo) gc() error {
 			} {
 				err := os.Remove(dir)
 				if err != nil && !errors.Is(err, fs.ErrNotExist) {
-					errs = append(errs, err)
+					// stop on the first failure, the index and layout are needed while any blobs remain
+					return err
 				}
 			}
-			return errors.Join(errs...)
+			return nil
 		}()
 		if errDir == nil {
 			dr.exists = false
